@@ -19,7 +19,7 @@ theorem sameCore_of (w w' : World) (hents : w'.ents = w.ents)
     (hreqs : ∀ r, (w'.req r).msgId = (w.req r).msgId ∧ (w'.req r).dfd = (w.req r).dfd ∧ (w'.req r).alarm = (w.req r).alarm)
     (htimers : ∀ t, (w'.timers.get? t).map (fun tm => (tm.kind, tm.status)) = (w.timers.get? t).map (fun tm => (tm.kind, tm.status))) (hfired : w'.fired = w.fired) (hcr : w'.connReqs = w.connReqs)
     (hprotos : w'.protos = w.protos) (hid : w'.nextId = w.nextId) (hidle : w.nextId ≤ 65535) (h1 : w'.nextReq = w.nextReq) (h2 : w'.nextTimer = w.nextTimer)
-    (h3 : w'.nextDfd = w.nextDfd) (h4 : w'.nextCR = w.nextCR) (h5 : w'.nextProto = w.nextProto) : SameCore w w' :=
+    (h3 : w'.nextDfd = w.nextDfd) (h4 : w'.nextCR = w.nextCR) (h5 : w'.nextProto = w.nextProto) (h6 : w'.profile = w.profile) : SameCore w w' :=
   { ents := hents, reqs := hreqs,
     timers := by
       intro t
@@ -40,7 +40,7 @@ theorem sameCore_of (w w' : World) (hents : w'.ents = w.ents)
           rw [hw] at this; simp at this
           exact ⟨tm', rfl, this.1, this.2⟩,
     fired := hfired, connReqs := hcr, nextId := by rw [hid]; exact hidle,
-    nextReq := by rw [h1]; exact Nat.le_refl _, nextTimer := h2, nextDfd := by rw [h3]; exact Nat.le_refl _, nextCR := h4, nextProto := h5,
+    nextReq := by rw [h1]; exact Nat.le_refl _, nextTimer := h2, nextDfd := by rw [h3]; exact Nat.le_refl _, nextCR := h4, nextProto := h5, profile := h6,
     protos := protos_refl w w' hprotos }
 
 /-! ### the retransmission helpers arm the entry they are applied to -/
@@ -66,7 +66,7 @@ theorem armedLike_inv {x : Option Nat} {w : World} (h : WInvX x w) {e : Ent} (he
         ((addT (marked w old n).timers w.nextTimer 0 (.retry p e.rid)).get? t).map (fun tm => (tm.kind, tm.status)))
     (hfired : w'.fired = w.fired) (hcr : w'.connReqs = w.connReqs) (hprotos : w'.protos = w.protos)
     (hid : w'.nextId = w.nextId) (h1 : w'.nextReq = w.nextReq) (h2 : w'.nextTimer = w.nextTimer + 1)
-    (h3 : w'.nextDfd = w.nextDfd) (h4 : w'.nextCR = w.nextCR) (h5 : w'.nextProto = w.nextProto) : WInvX x w' := by
+    (h3 : w'.nextDfd = w.nextDfd) (h4 : w'.nextCR = w.nextCR) (h5 : w'.nextProto = w.nextProto) (h6 : w'.profile = w.profile) : WInvX x w' := by
   let r' : Req := { (w.req e.rid) with alarm := some w.nextTimer }
   have hA := armed_inv h he hq r' p 0 old 0 [] rfl rfl rfl hal ppr hpp haddr hlive
   refine hA.sameCore ?_
@@ -89,6 +89,7 @@ theorem armedLike_inv {x : Option Nat} {w : World} (h : WInvX x w) {e : Ent} (he
   · rw [h3]; rfl
   · rw [h4]; rfl
   · rw [h5]; rfl
+  · rw [h6]; rfl
 
 theorem marked_req (w : World) (old : Option Nat) (n r : Nat) : (marked w old n).req r = w.req r := rfl
 theorem marked_proto (w : World) (old : Option Nat) (n p : Nat) : (marked w old n).proto p = w.proto p := rfl
@@ -109,6 +110,7 @@ structure MarkedFacts (w : World) (old : Option Nat) (n : Nat) (w0 : World) : Pr
   nextDfd : w0.nextDfd = w.nextDfd
   nextCR : w0.nextCR = w.nextCR
   nextProto : w0.nextProto = w.nextProto
+  profile : w0.profile = w.profile
 
 theorem markedFacts (w : World) (old : Option Nat) (n : Nat) : MarkedFacts w old n (marked w old n) := by
   constructor <;> intros <;> rfl
@@ -135,7 +137,7 @@ theorem retryPublishW_inv {x : Option Nat} {w : World} (h : WInvX x w) {e : Ent}
     by_cases ht : w.nextTimer = t
     · simp [ht]
     · simp only [ht, ↓reduceIte]
-  all_goals simp [retryPublishW, hm0, f.fired, f.connReqs, f.protos, f.nextId, f.nextReq, f.nextTimer, f.nextDfd, f.nextCR, f.nextProto]
+  all_goals simp [retryPublishW, hm0, f.fired, f.connReqs, f.protos, f.nextId, f.nextReq, f.nextTimer, f.nextDfd, f.nextCR, f.nextProto, f.profile]
 
 theorem retryReleaseW_inv {x : Option Nat} {w : World} (h : WInvX x w) {e : Ent} (he : e ∈ w.ents) (hq : e.box ≠ .queue)
     (p : Nat) (dup : Bool) (old : Option Nat) (n : Nat) (hal : (w.req e.rid).alarm = old)
@@ -157,7 +159,7 @@ theorem retryReleaseW_inv {x : Option Nat} {w : World} (h : WInvX x w) {e : Ent}
       by_cases ht : w.nextTimer = t
       · simp [ht]
       · simp only [ht, ↓reduceIte]
-  all_goals (simp only [retryReleaseW]; split <;> simp [f.fired, f.connReqs, f.protos, f.nextId, f.nextReq, f.nextTimer, f.nextDfd, f.nextCR, f.nextProto])
+  all_goals (simp only [retryReleaseW]; split <;> simp [f.fired, f.connReqs, f.protos, f.nextId, f.nextReq, f.nextTimer, f.nextDfd, f.nextCR, f.nextProto, f.profile])
 
 theorem retrySubUnsubW_inv {x : Option Nat} {w : World} (h : WInvX x w) {e : Ent} (he : e ∈ w.ents) (hq : e.box ≠ .queue)
     (p : Nat) (dup isSub : Bool) (old : Option Nat) (n : Nat) (hal : (w.req e.rid).alarm = old)
@@ -179,7 +181,7 @@ theorem retrySubUnsubW_inv {x : Option Nat} {w : World} (h : WInvX x w) {e : Ent
       by_cases ht : w.nextTimer = t
       · simp [ht]
       · simp only [ht, ↓reduceIte]
-  all_goals (simp only [retrySubUnsubW]; split <;> simp [f.fired, f.connReqs, f.protos, f.nextId, f.nextReq, f.nextTimer, f.nextDfd, f.nextCR, f.nextProto])
+  all_goals (simp only [retrySubUnsubW]; split <;> simp [f.fired, f.connReqs, f.protos, f.nextId, f.nextReq, f.nextTimer, f.nextDfd, f.nextCR, f.nextProto, f.profile])
 
 /-! ### `_refillPublish`: held-back messages move into the publish window -/
 
